@@ -114,7 +114,10 @@ class ShapeSpec:
 
         if self.mesh_id is not None:
             return sh.MeshShape(_geom.MESHES[self.mesh_id])
-        return {"box": sh.BoxShape, "cyl": sh.CylinderShape, "cone": sh.ConeShape, "sph": sh.SpheroidShape}[self.kind]()
+        cls = {"box": sh.BoxShape, "cyl": sh.CylinderShape, "cone": sh.ConeShape, "sph": sh.SpheroidShape}[self.kind]
+        if "initial_rotation" in self.params:
+            return cls(initial_rotation=self.params["initial_rotation"])
+        return cls()
 
 
 _PRIMS = {}
@@ -161,6 +164,14 @@ def random_shape(rng, kind):
     """rng: numpy Generator.  Returns ShapeSpec (registering a mesh in verif_geom if needed)."""
     if kind in ("box", "cyl", "cone", "sph"):
         solid, src = _primitive(kind)
+        if kind in ("box", "cyl") and rng.random() < 0.15:
+            # `initial_rotation` (applied to the mesh when loading it, about the centre of these point-symmetric
+            # shapes); the rotated mesh is then what gets scaled to width x length x height
+            r0 = tuple(float(x) for x in rng.uniform(-math.pi, math.pi, 3))
+            rot = go.Solid([solid.unit().pieces[0].affine(go.rotation(*r0), (0, 0, 0))])
+            cls = src[:-2]
+            spec = ShapeSpec(kind, rot, f"{cls}(initial_rotation={r0!r})", True, params={"initial_rotation": r0})
+            return spec
         return ShapeSpec(kind, solid, src, True)
     u = lambda a, b: float(rng.uniform(a, b))
     disjoint = False
@@ -299,6 +310,18 @@ def vol_region(rng, kind, centre, size):
         spec = random_shape(rng, "hull" if kind == "hullmesh" else kind)
         mesh = _geom.MESHES[spec.mesh_id]
         use_dims = rng.random() < 0.6
+        if rng.random() < 0.15:
+            # centerMesh=False: the mesh keeps its own coordinates, is rotated about the origin and translated
+            # by `position` (documented: "scaling and rotation ... are performed around the origin")
+            lo_, hi_ = spec.solid.bounds()
+            # choose `position` so that the region ends up around `centre` (position itself is then off the mesh)
+            # (and keep it near the world origin: that is where measuring radii about the origin and centre
+            # distances about `position` disagree most)
+            pos = tuple(float(x) for x in 0.15 * np.asarray(centre, dtype=float) - go.rotation(*ypr) @ ((lo_ + hi_) / 2))
+            reg = MeshVolumeRegion(mesh=mesh, position=pos, rotation=_orient(ypr), centerMesh=False)
+            pieces = [P.affine(go.rotation(*ypr), pos) for P in spec.solid.pieces]
+            desc = {"kind": kind, "dims": None, "pos": pos, "ypr": ypr, "centerMesh": False}
+            return ("vol", pieces), reg, desc
         if use_dims:
             reg = MeshVolumeRegion(mesh=mesh, dimensions=dims, position=pos, rotation=_orient(ypr))
             pieces = spec.unit.placed(dims, pos, go.rotation(*ypr))
@@ -363,4 +386,69 @@ def foot_region(rng, centre, size, as_polygonal=False):
     else:
         reg = PolygonalFootprintRegion(shp)
     desc = {"kind": "polygonal" if as_polygonal else "footprint", "outer": [P.V.tolist() for P in outers], "holes": [H.V.tolist() for H in holes], "nholes": len(holes), "z": z}
+    # (for `obj intersects region`: a PolygonalRegion is the flat set at height z, a footprint is the prism)
+    desc["flat_tree_z"] = z if as_polygonal else None
     return ("foot", outers, holes), reg, desc
+
+
+def ring_foot_region(rng, centre, size):
+    """A rectangle with one small convex hole near its centre (for objects that wrap around the hole: their
+    convex hull covers the hole, their exact projection does not)."""
+    import shapely.geometry as sg
+    from scenic.core.regions import PolygonalFootprintRegion
+
+    cx, cy = float(centre[0]), float(centre[1])
+    a = float(rng.uniform(0, math.pi))
+    R = np.array([[math.cos(a), -math.sin(a)], [math.sin(a), math.cos(a)]])
+    outer = go.Convex((go.box_vertices((-size / 2, -size / 2), (size / 2, size / 2)) @ R.T) + np.array([cx, cy]))
+    m = int(rng.integers(3, 7))
+    ang = np.sort(rng.uniform(0, 2 * math.pi, m))
+    while np.diff(np.concatenate([ang, [ang[0] + 2 * math.pi]])).max() > math.pi * 0.9:
+        ang = np.sort(rng.uniform(0, 2 * math.pi, m))
+    rh = size * float(rng.uniform(0.03, 0.06))
+    hole = go.Convex(np.array([cx, cy]) + rh * np.stack([np.cos(ang), np.sin(ang)], axis=1))
+
+    def ring(P):
+        import scipy.spatial
+
+        h = scipy.spatial.ConvexHull(P.V)
+        return [tuple(v) for v in P.V[h.vertices]]
+
+    shp = sg.Polygon(ring(outer), [ring(hole)])
+    if not shp.is_valid:
+        return None
+    reg = PolygonalFootprintRegion(shp)
+    desc = {"kind": "footprint_ring", "outer": [outer.V.tolist()], "holes": [hole.V.tolist()], "nholes": 1, "hole_radius": rh, "hole_centre": [cx, cy]}
+    return ("foot", [outer], [hole]), reg, desc
+
+
+# ---------------------------------------------------------------------------------------------
+# process hygiene
+# ---------------------------------------------------------------------------------------------
+def calm_thread_pools():
+    """manifold3d (TBB) and HiGHS size their global worker pools from the CPU affinity mask the first time they
+    are used; with 16 visible cores every tiny boolean / LP pays for waking (and spinning) workers -- measured
+    10x on a box-sphere union.  Initialise both pools while the process is confined to one CPU, then restore the
+    mask: all later calls run in the calling thread, the process itself may still migrate."""
+    import os
+    import warnings
+
+    try:
+        full = os.sched_getaffinity(0)
+    except AttributeError:  # not on Linux
+        return False
+    try:
+        os.sched_setaffinity(0, {sorted(full)[0]})
+        import trimesh
+        from scipy.optimize import linprog
+
+        a = trimesh.creation.box((1, 1, 1))
+        b = trimesh.creation.box((1, 1, 1))
+        b.apply_translation((0.5, 0.5, 0.5))
+        trimesh.boolean.union([a, b], engine="manifold")
+        with warnings.catch_warnings():
+            warnings.simplefilter("ignore")
+            linprog([1, 1], A_ub=[[-1, 0], [0, -1]], b_ub=[0, 0], method="highs", options={"threads": 1})
+    finally:
+        os.sched_setaffinity(0, full)
+    return True
